@@ -399,3 +399,52 @@ class MayRaise:
 
     def of(self, fi: FuncInfo) -> dict:
         return self.summary.get(fi.qual, {})
+
+
+# --------------------------------------------------------------------------------------------
+# K7: transitive write effects on a tracked set of (class, field) locations
+# --------------------------------------------------------------------------------------------
+class Writes:
+    def __init__(self, ctx, tracked: list):
+        """tracked: [(class qual suffix, field)]"""
+        from .locks import LockAnalysis
+        self.ctx = ctx
+        self.prog = ctx.prog
+        self.la = LockAnalysis(ctx)
+        self.direct: dict = {}
+        for cls, fld in tracked:
+            for a in self.la.accesses(cls, fld):
+                if a.kind != "read":
+                    self.direct.setdefault(a.fi.qual, set()).add(f"{cls.split('.')[-1]}.{fld}")
+        self._memo: dict = {}
+
+    def of(self, fi: FuncInfo, _stack=None) -> set:
+        if fi.qual in self._memo:
+            return self._memo[fi.qual]
+        _stack = _stack or set()
+        if fi.qual in _stack:
+            return set()
+        _stack.add(fi.qual)
+        out = set(self.direct.get(fi.qual, ()))
+        for c in self.prog.calls_in(fi):
+            for t in self.prog.call_targets(fi, c, count=False):
+                if isinstance(t, FuncInfo):
+                    out |= self.of(t, _stack)
+                elif isinstance(t, ClassInfo):
+                    m = t.find_method("__init__")
+                    if m is not None:
+                        out |= self.of(m, _stack)
+        _stack.discard(fi.qual)
+        self._memo[fi.qual] = out
+        return out
+
+
+def returns_only_none(prog: Program, fi: FuncInfo) -> bool:
+    """Every return of fi is bare / `return None` (and the function is not a generator)."""
+    for n in ast.walk(fi.node):
+        if isinstance(n, (ast.Yield, ast.YieldFrom)):
+            return False
+        if isinstance(n, ast.Return) and n.value is not None:
+            if not (isinstance(n.value, ast.Constant) and n.value.value is None):
+                return False
+    return True
